@@ -446,9 +446,42 @@ Definition refusal_justified (c : config) (a : astate) (m : omap) (o : op) : boo
                       existsb (fun t => would_exceed c a m t d prio memop) l)
           (constrainers c a m o).
 
+(* which of the three checks beyond the core (answer legality, sums, signs,
+   limits) are switched on: the priority threshold after a successful
+   ReserveMemory, the justification of resource-limit refusals, the per-subnet cap *)
+Record checks := mkChecks { ck_prio : bool; ck_just : bool; ck_cap : bool }.
+Definition ck_core : checks := mkChecks false false false.
+Definition ck_all : checks := mkChecks true true true.
+
+(* a successful ReserveMemory(_, prio) leaves every charged scope at or below limit*(1+prio)/256 *)
+Definition prio_check (ck : checks) (c : config) (a : astate) (m : omap) (o : op) (cls : Z) : option sid :=
+  if ck_prio ck then
+    match o with
+    | OReserve t sz prio =>
+        if cls =? 0 then
+          first_some (fun x => if (l_mem (a_limit c a x) =? max_int64) ||
+                                  (mem (ostat m x) <=? prio_threshold (a_limit c a x) prio)
+                               then None else Some x) (areach a t)
+        else None
+    | _ => None
+    end
+  else None.
+
+(* the open connections counted under the rule that governs a newly admitted one stay within its cap *)
+Definition cap_check (ck : checks) (c : config) (a : astate) (o : op) (cls : Z) : list Z :=
+  if ck_cap ck then
+    match o with
+    | OOpenConn i _ _ (Some ip) =>
+        if (cls =? 0) && negb (cap_ok c (open_ips a false) ip)
+        then [CL_CAP; if cap_ok c (open_ips a true) ip then 1 else 0] ++ zsid (Conn i)
+        else []
+    | _ => []
+    end
+  else [].
+
 (* checks on the state after one operation; [a] is the abstract state after it,
    [m] the observed stats after it.  Result: [] or clause :: scope ++ details *)
-Definition check_after (extra : bool) (c : config) (a : astate) (m : omap) (o : op) (cls : Z) : list Z :=
+Definition check_after (ck : checks) (c : config) (a : astate) (m : omap) (o : op) (cls : Z) : list Z :=
   let U := universe a m in
   match usage_mismatch a m U with
   | Some t => [CL_USAGE] ++ zsid t ++ zstat (usage_A a t) ++ zstat (ostat m t)
@@ -459,27 +492,9 @@ Definition check_after (extra : bool) (c : config) (a : astate) (m : omap) (o : 
           match first_some (fun t => if within (a_limit c a t) (ostat m t) then None else Some t) U with
           | Some t => [CL_LIMIT] ++ zsid t ++ zstat (ostat m t)
           | None =>
-              if negb extra then [] else
-              let prio_bad :=
-                match o with
-                | OReserve t sz prio =>
-                    if cls =? 0 then
-                      first_some (fun x => let l := a_limit c a x in
-                                           if (l_mem l =? max_int64) || (mem (ostat m x) <=? prio_threshold l prio)
-                                           then None else Some x) (areach a t)
-                    else None
-                | _ => None
-                end in
-              match prio_bad with
+              match prio_check ck c a m o cls with
               | Some t => [CL_PRIO] ++ zsid t ++ zstat (ostat m t)
-              | None =>
-                  match o with
-                  | OOpenConn i _ _ (Some ip) =>
-                      if (cls =? 0) && negb (cap_ok c (open_ips a false) ip)
-                      then [CL_CAP; if cap_ok c (open_ips a true) ip then 1 else 0] ++ zsid (Conn i)
-                      else []
-                  | _ => []
-                  end
+              | None => cap_check ck c a o cls
               end
           end
       end
@@ -503,7 +518,7 @@ Definition drop_holders (a : astate) (l : list sid) : astate :=
   fold_left kill l a.
 
 (* one monitored step: Some (a', m') or a diagnostic *)
-Definition mon_step_gen (extra : bool) (c : config) (a : astate) (m : omap) (o : op) (x : obs)
+Definition mon_step_gen (ck : checks) (c : config) (a : astate) (m : omap) (o : op) (x : obs)
   : (astate * omap) + list Z :=
   let m' := apply_delta m (o_delta x) in
   let cls := o_cls x in
@@ -515,9 +530,9 @@ Definition mon_step_gen (extra : bool) (c : config) (a : astate) (m : omap) (o :
       let pick := first_some (fun cand => match usage_mismatch cand m' (universe cand m') with
                                           | None => Some cand | Some _ => None end) (a1 :: rest) in
       let a' := match pick with Some cand => cand | None => a1 end in
-      match check_after extra c a' m' o cls with
+      match check_after ck c a' m' o cls with
       | [] =>
-          if extra && (cls =? 1) && negb (refusal_justified c a m o)
+          if ck_just ck && (cls =? 1) && negb (refusal_justified c a m o)
           then inr [CL_UNJUST; cls]
           else inl (a', m')
       | d =>
@@ -546,20 +561,20 @@ Definition mon_step_gen (extra : bool) (c : config) (a : astate) (m : omap) (o :
       end
   end.
 
-Definition mon_step := mon_step_gen true.
+Definition mon_step := mon_step_gen ck_all.
 
-(* [extra = false]: sums, signs, limits only; [true] adds the priority
+(* [ck_core]: sums, signs, limits only; [ck_all] adds the priority
    threshold, the justification of limit refusals and the per-subnet cap *)
-Fixpoint mon_run_gen (extra : bool) (c : config) (a : astate) (m : omap) (i : Z) (tr : list (op * obs)) : list Z :=
+Fixpoint mon_run_gen (ck : checks) (c : config) (a : astate) (m : omap) (i : Z) (tr : list (op * obs)) : list Z :=
   match tr with
   | [] => []
   | (o, x) :: r =>
-      match mon_step_gen extra c a m o x with
-      | inl (a', m') => mon_run_gen extra c a' m' (i + 1) r
+      match mon_step_gen ck c a m o x with
+      | inl (a', m') => mon_run_gen ck c a' m' (i + 1) r
       | inr d => ERR_PROPERTY :: i :: d
       end
   end.
-Definition mon_run := mon_run_gen true.
+Definition mon_run := mon_run_gen ck_all.
 
 (* the caller hypotheses along a trace: index of the first operation that
    breaks them *)
@@ -568,7 +583,7 @@ Fixpoint callers_run (c : config) (a : astate) (m : omap) (i : Z) (tr : list (op
   | [] => None
   | (o, x) :: r =>
       if caller_ok a o && no_overflow m o then
-        match mon_step_gen false c a m o x with
+        match mon_step_gen ck_core c a m o x with
         | inl (a', m') => callers_run c a' m' (i + 1) r
         | inr _ => None
         end
